@@ -137,8 +137,8 @@ type gen struct {
 	e       *crkit.Env
 	rng     *lib.Rng
 	h       uint32
-	regTx   map[int]interfaces.Transaction // candidate -> latest register tx
-	voteTx  map[int]interfaces.Transaction // voter -> unspent vote tx
+	regTxs  map[int][]interfaces.Transaction // candidate -> register txs whose deposit output is unspent
+	voteTx  map[int]interfaces.Transaction   // voter -> unspent vote tx
 	props   []*pinfo
 	nick    int
 	wdTxs   []common.Uint256
@@ -147,6 +147,12 @@ type gen struct {
 	rej     map[string]int
 	// plan: scenario directives mixed into the random stream (council dissolved by
 	// impeachment while proposals are pending; members impeached while inactive)
+	// a candidate that lost the first election registers again in the next voting
+	// period, unregisters, and returns both deposits with one transaction
+	reReturn    bool
+	reStage     int
+	reCand      int
+	reCancelH   uint32
 	impeachAt   uint32
 	impeachN    int
 	proposalsAt uint32
@@ -161,6 +167,34 @@ func (g *gen) memberKey(did common.Uint168) *crkit.Key {
 		}
 	}
 	return nil
+}
+
+// returnAll builds one ReturnCRDepositCoin transaction spending EVERY unspent
+// deposit output of candidate i (several when it registered in more than one
+// voting period), if the whole amount is available (lock-up over, no penalty);
+// such a transaction returns the current record and the history records of
+// earlier sessions at once.
+func (g *gen) returnAll(i int, h uint32) interfaces.Transaction {
+	cm := g.e.Committee
+	st := cm.GetState()
+	var ins []*common2.Input
+	var sum common.Fixed64
+	for _, rt := range g.regTxs[i] {
+		in := input(rt, 0)
+		if v, ok := st.DepositOutputs[in.ReferKey()]; ok {
+			ins = append(ins, in)
+			sum += v
+		}
+	}
+	if len(ins) == 0 || cm.GetAvailableDepositAmount(cands[i].CID) < sum {
+		return nil
+	}
+	if c := cm.GetCandidate(cands[i].CID); c != nil &&
+		(c.State != state.Canceled || h-c.CancelHeight <= g.e.Params.CRConfiguration.DepositLockupBlocks) {
+		return nil
+	}
+	delete(g.regTxs, i)
+	return crkit.ReturnDeposit(cands[i], nn(), ins, sum-10000)
 }
 
 // candidates returns the transactions proposed for the next block.
@@ -235,6 +269,38 @@ func (g *gen) blockTxs() ([]interfaces.Transaction, []string) {
 			g.impeachN--
 		}
 	}
+	if g.reReturn && h >= 36 {
+		switch g.reStage {
+		case 0:
+			if inVoting {
+				for i := range cands {
+					if len(g.regTxs[i]) > 0 && cm.GetMember(cands[i].DID) == nil && cm.GetCandidate(cands[i].CID) == nil {
+						g.nick++
+						tx := crkit.RegisterCR(cands[i], fmt.Sprintf("nick%d", g.nick), nn(), common.Fixed64(5000*ela))
+						g.regTxs[i] = append(g.regTxs[i], tx)
+						usedCand[i] = true
+						add(fmt.Sprintf("registerCR c%d (again)", i), tx, false, nil)
+						g.reCand, g.reStage = i, 1
+						break
+					}
+				}
+			}
+		case 1:
+			if c := cm.GetCandidate(cands[g.reCand].CID); c != nil && (c.State == state.Pending || c.State == state.Active) && rng.Chance(90) {
+				usedCand[g.reCand] = true
+				add(fmt.Sprintf("unregisterCR c%d", g.reCand), crkit.UnregisterCR(cands[g.reCand], nn()), false, nil)
+				g.reCancelH, g.reStage = h, 2
+			}
+		case 2:
+			if h-g.reCancelH > g.e.Params.CRConfiguration.DepositLockupBlocks && rng.Chance(85) {
+				if tx := g.returnAll(g.reCand, h); tx != nil {
+					usedCand[g.reCand] = true
+					add(fmt.Sprintf("returnDeposit c%d (all outputs)", g.reCand), tx, false, nil)
+					g.reStage = 3
+				}
+			}
+		}
+	}
 	n := rng.Intn(4)
 	firstTerm := h < 20
 	if h <= 12 || (h >= 16 && h <= 19) {
@@ -280,13 +346,13 @@ func (g *gen) blockTxs() ([]interfaces.Transaction, []string) {
 		switch {
 		case x < 14 || (early && x < 50): // register
 			i := rng.Intn(nCands)
-			if usedCand[i] || !inVoting || cm.ExistCR(cands[i].Code) || st.DepositInfo[cands[i].CID] != nil && rng.Chance(50) {
+			if usedCand[i] || !inVoting || cm.GetCandidate(cands[i].CID) != nil || cm.GetMember(cands[i].DID) != nil || st.DepositInfo[cands[i].CID] != nil && rng.Chance(50) {
 				continue
 			}
 			g.nick++
 			tx := crkit.RegisterCR(cands[i], fmt.Sprintf("nick%d", g.nick), nn(), common.Fixed64(5000*ela))
 			usedCand[i] = true
-			g.regTx[i] = tx
+			g.regTxs[i] = append(g.regTxs[i], tx)
 			add(fmt.Sprintf("registerCR c%d", i), tx, false, nil)
 		case x < 20: // update
 			i := rng.Intn(nCands)
@@ -312,28 +378,13 @@ func (g *gen) blockTxs() ([]interfaces.Transaction, []string) {
 			add(fmt.Sprintf("unregisterCR c%d", i), crkit.UnregisterCR(cands[i], nn()), false, nil)
 		case x < 30: // return deposit
 			i := rng.Intn(nCands)
-			c := cm.GetCandidate(cands[i].CID)
-			rt := g.regTx[i]
-			if usedCand[i] || rt == nil {
+			if usedCand[i] {
 				continue
 			}
-			if _, ok := st.DepositOutputs[input(rt, 0).ReferKey()]; !ok {
-				continue
+			if tx := g.returnAll(i, h); tx != nil {
+				usedCand[i] = true
+				add(fmt.Sprintf("returnDeposit c%d", i), tx, false, nil)
 			}
-			avail := cm.GetAvailableDepositAmount(cands[i].CID)
-			if avail < common.Fixed64(5000*ela) && !(c != nil && c.State == state.Canceled) {
-				continue
-			}
-			if c != nil && c.State == state.Canceled && h-c.CancelHeight <= g.e.Params.CRConfiguration.DepositLockupBlocks {
-				continue
-			}
-			if avail <= 0 {
-				continue
-			}
-			usedCand[i] = true
-			tx := crkit.ReturnDeposit(cands[i], nn(), []*common2.Input{input(rt, 0)}, common.Fixed64(5000*ela-10000))
-			delete(g.regTx, i)
-			add(fmt.Sprintf("returnDeposit c%d", i), tx, false, nil)
 		case x < 48 || (h >= 16 && h <= 19 && x < 90): // CRC votes
 			j := rng.Intn(nVoters)
 			if usedVoter[j] || !inVoting {
@@ -529,10 +580,15 @@ func (g *gen) blockTxs() ([]interfaces.Transaction, []string) {
 
 func generate(rng *lib.Rng, v variant, nblocks int) (*world, *gen) {
 	w := &world{v: v, refs: map[string]common2.Output{}}
-	g := &gen{w: w, rng: rng, h: startH - 1, regTx: map[int]interfaces.Transaction{}, voteTx: map[int]interfaces.Transaction{}, kinds: map[string]int{}, rej: map[string]int{}}
+	g := &gen{w: w, rng: rng, h: startH - 1, regTxs: map[int][]interfaces.Transaction{}, voteTx: map[int]interfaces.Transaction{}, kinds: map[string]int{}, rej: map[string]int{}}
 	g.e = w.newEnv()
 	g.scripted = rng.Chance(75)
-	switch rng.Intn(3) {
+	switch rng.Intn(5) {
+	case 3, 4: // a loser of the first election registers again and returns both deposits at once
+		g.scripted, g.reReturn = true, true
+		if nblocks < 38 {
+			nblocks = 38 + rng.Intn(4)
+		}
 	case 0: // council dissolved early, proposals still Registered / CRAgreed
 		g.scripted, g.proposalsAt = true, 21
 		g.impeachAt, g.impeachN = uint32(rng.Range(23, 28)), rng.Range(2, 3)
